@@ -23,6 +23,7 @@ from . import brownian_kit as bk
 
 BI = bk.BI
 F = Fraction
+SIZE_LIMIT = 20000         # terms of one canonical form; the unchanged tree stays below a tenth of it (largest: 1506, R03.11 thorough)
 
 
 class Config:
@@ -74,6 +75,7 @@ class Session:
         self.hooks = ReplayHooks({})
         self.it = Interp(model, self.hooks)
         self.it.max_loop = 4096             # concrete loops over tree pieces / levels, not abstract ones
+        self.it.size_limit = SIZE_LIMIT
         self.init = model.func(BI, "BrownianInterval.__init__")
         self.call = model.func(BI, "BrownianInterval.__call__")
         self.bcls = model.cls(BI, "BrownianInterval")
